@@ -1427,9 +1427,15 @@ def kkt_chol2(G, dims, A, mnl = 0):
             try:
                 if type(F['S']) is matrix: 
                     lapack.potrf(F['S']) 
+                    d = F['S'][::n+1]
                 else:
                     F['Sf'] = cholmod.symbolic(F['S'])
                     cholmod.numeric(F['S'], F['Sf'])
+                    d = cholmod.diag(F['Sf'])
+                # A singular S can pass the factorization with pivots
+                # at the level of the rounding errors.
+                if n and min(d) <= 1e-5 * max(d):
+                    raise ArithmeticError("singular matrix")
             except ArithmeticError:
                 F['singular'] = True 
                 if type(A) is matrix and type(F['S']) is spmatrix:
